@@ -629,17 +629,27 @@ class PteraTransformer(NodeTransformer):
         else:  # pragma: no cover
             raise NotImplementedError(target)
 
-    def visit_Lambda(self, node):
-        # A scope of its own, like a nested def: what it binds (an assignment
-        # expression) or yields is not this function's
+    def _visit_defaults(self, node):
+        # The default values (and decorators) of an inner function are
+        # evaluated by this function, in its own scope
+        args = node.args
+        args.defaults = [self.visit(d) for d in args.defaults]
+        args.kw_defaults = [d and self.visit(d) for d in args.kw_defaults]
+        if hasattr(node, "decorator_list"):
+            node.decorator_list = [self.visit(d) for d in node.decorator_list]
         return node
 
+    def visit_Lambda(self, node):
+        # A scope of its own, like a nested def: what its body binds (an
+        # assignment expression) or yields is not this function's
+        return self._visit_defaults(node)
+
     def visit_AsyncFunctionDef(self, node):
-        return node
+        return self._visit_defaults(node)
 
     def visit_FunctionDef(self, node, root=False):
         if not root:
-            return node
+            return self._visit_defaults(node)
 
         new_body = []
 
